@@ -4,4 +4,5 @@ INVARIANT TypeOK AtMostOneRun Emit
 CHECK_DEADLOCK FALSE
 CONSTANTS
   UnlockFirst = FALSE
+  WithMap = FALSE
   KeepHist = TRUE
